@@ -82,7 +82,7 @@ def parse_kc(path):
             while i + 1 < len(lines) and lines[i + 1].strip().startswith('//@@ ') and lines[i + 1].strip()[5:].lstrip().startswith('|'):
                 i += 1
                 full += ' ' + lines[i].strip()[5:]
-            fields = [f.strip() for f in full.split('|')]
+            fields = [f.strip() for f in re.split(r'\s\|\s', ' ' + full + ' ')]
             name = fields[0]
             meta = {}
             for f in fields[1:]:
